@@ -535,6 +535,72 @@ def mergeOutput (target out : Dict κ ν) : Dict κ ν := Dict.update target out
 
 end
 
+/-! ## The model object: equations by NAME, compiled evaluators by ROW number, re-finalized on every re-ordering -/
+
+section
+variable {β : Type}
+
+
+def Expr.rename (num : Nat → Nat) : Expr β → Expr β
+  | .const c => .const c
+  | .var r s => .var (num r) s
+  | .neg a => .neg (a.rename num)
+  | .add a b => .add (a.rename num) (b.rename num)
+  | .sub a b => .sub (a.rename num) (b.rename num)
+  | .mul a b => .mul (a.rename num) (b.rename num)
+  | .div a b => .div (a.rename num) (b.rename num)
+  | .fn k a => .fn k (a.rename num)
+
+/-- `Explanatory.finalize(name_to_qid)`: the same equation with every name replaced by its row number -/
+def Equation.rename (num : Nat → Nat) (eq : Equation β) : Equation β :=
+  { eq with lhs := num eq.lhs, res := num eq.res, rhs := eq.rhs.rename num }
+
+def PlanPoint.rename (num : Nat → Nat) (p : PlanPoint) : PlanPoint := { p with target := p.target.map num }
+
+/-- the data array `tbl'` holds under row `num r` what `tbl` holds under `r` -/
+def Agree (num : Nat → Nat) (tbl tbl' : Table β) : Prop := ∀ r c, tbl' (num r) c = tbl r c
+
+def PlanAgree (num : Nat → Nat) (plan plan' : Plan) : Prop :=
+  ∀ r c, plan' (num r) c = (plan r c).map (PlanPoint.rename num)
+
+def RelE (num : Nat → Nat) : Except Err (Table β) → Except Err (Table β) → Prop
+  | .ok a, .ok b => Agree num a b
+  | .error e, .error e' => e = e'
+  | _, _ => False
+
+
+/-- a `Sequential` object: its equations by name in their current order, the name → row numbering in force
+(`create_name_to_qid`), and the compiled evaluators, which hold row numbers -/
+structure ModelObj (β : Type) where
+  source : List (Equation β)
+  numbering : Nat → Nat
+  compiled : List (Equation β)
+
+/-- `Invariant.finalize_explanatories`: renumber and recompile every evaluator (`numOf` = the numbering irispie derives from
+the order of the equations: LHS names in order of first appearance, then the other names, then the residual names) -/
+def ModelObj.finalize (numOf : List (Equation β) → Nat → Nat) (src : List (Equation β)) : ModelObj β :=
+  { source := src, numbering := numOf src, compiled := src.map (Equation.rename (numOf src)) }
+
+/-- `reorder_equations(perm)`: `new[k] = old[perm[k]]` -/
+def reorderList {α : Type} (perm : List Nat) (l : List α) : List α := perm.filterMap (l[·]?)
+
+inductive ObjOp where
+  | reorder (perm : List Nat)     -- reorder_equations / the re-ordering sequentialize() performs
+  | copy                          -- copy(): a deep copy, same state
+  | simulate                      -- a simulation does not change the object
+
+/-- the object after one operation: a re-ordering re-collects the names and re-finalizes -/
+def ModelObj.apply (numOf : List (Equation β) → Nat → Nat) (o : ModelObj β) : ObjOp → ModelObj β
+  | .reorder perm => ModelObj.finalize numOf (reorderList perm o.source)
+  | .copy => o
+  | .simulate => o
+
+/-- the order of the equations after a sequence of operations -/
+def sourceAfter (ops : List ObjOp) (src : List (Equation β)) : List (Equation β) :=
+  ops.foldl (fun l op => match op with | .reorder perm => reorderList perm l | _ => l) src
+
+end
+
 /-! ## Executable carriers -/
 
 instance : Carrier Rat where
